@@ -298,7 +298,7 @@ fn kinds_line() {
 
 // @verif property=C14,C01 tier=quick timeout=1800 mem=24 bounds="line '$a,$b,$c,$d,0,$f' with the type EVERY i32 (kind precedence circle>slider>spinner>hold, unknown kinds), end time every f64 / error; arbitrary predecessor"
 oracle_proof!(c14_kinds, 32, kinds_line());
-// @verif property=C14,C06,C01 tier=thorough timeout=1800 mem=24 bounds="circle line with extras '$a,$b,$c,$d,10,$f:$g:$h:$i:' (hit sound 10 = whistle+clap; banks, custom index, volume every i32 / error)" covers=5
+// @verif property=C14 tier=thorough timeout=1800 mem=24 bounds="circle line with extras '$a,$b,$c,$d,10,$f:$g:$h:$i:' (hit sound 10 = whistle+clap; banks, custom index, volume every i32 / error)" covers=5
 oracle_proof!(c14_circle_extras_sound10, 40, circle_line(true, Some(10), "$a,$b,$c,$d,10,$f:$g:$h:$i:"));
 
 // ------------------------------------------------------------------------------------------
@@ -374,9 +374,9 @@ fn path_two_points(letter_code: u8, template: &'static str) {
 oracle_proof!(c14_path_p2, 24, path_two_points(4, "P|$a:$b|$c:$d"));
 // @verif property=C14,C06,C01 tier=quick timeout=1500 mem=20 bounds="convert_path_str on 'B|$a:$b|$c:$d'" covers=2
 oracle_proof!(c14_path_b2, 24, path_two_points(2, "B|$a:$b|$c:$d"));
-// @verif property=C14,C06 tier=thorough timeout=1500 mem=20 bounds="convert_path_str on 'L|$a:$b|$c:$d'" covers=2
+// @verif property=C14 tier=thorough timeout=1500 mem=20 bounds="convert_path_str on 'L|$a:$b|$c:$d'" covers=2
 oracle_proof!(c14_path_l2, 24, path_two_points(3, "L|$a:$b|$c:$d"));
-// @verif property=C14,C06 tier=thorough timeout=1500 mem=20 bounds="convert_path_str on 'C|$a:$b|$c:$d'" covers=2
+// @verif property=C14 tier=thorough timeout=1500 mem=20 bounds="convert_path_str on 'C|$a:$b|$c:$d'" covers=2
 oracle_proof!(c14_path_c2, 24, path_two_points(1, "C|$a:$b|$c:$d"));
 
 // ------------------------------------------------------------------------------------------
@@ -436,7 +436,7 @@ fn slider_line_concrete_path() {
     core::mem::forget(st);
 }
 
-// @verif property=C14,C01 tier=thorough timeout=3400 mem=32 bounds="slider line '$a,$b,$c,2,0,B|100:100|200:200,2,$g': CONCRETE path and repeat count; x,y every f32 / error, time, length every f64 / error; arbitrary predecessor"
+// @verif property=C14 tier=thorough timeout=3400 mem=32 bounds="slider line '$a,$b,$c,2,0,B|100:100|200:200,2,$g': CONCRETE path and repeat count; x,y every f32 / error, time, length every f64 / error; arbitrary predecessor"
 oracle_proof!(c14_slider_concrete_path, 48, slider_line_concrete_path());
 
 /// A multi-segment path whose SECOND segment fails after the first was converted: nothing of
